@@ -1112,3 +1112,55 @@ func ruleC15LFUBucketImmutable(c *Ctx) {
 		c.bad("lfu/frequency-writers", "", "no assignment of frequencyParent.frequency found")
 	}
 }
+
+// ruleC15EventLoopLockFree: Close holds mux for its whole drain and blocks on the unbuffered events channel until the
+// event goroutine receives. If that goroutine ever waits for mux itself (by calling a locking method of the cache such as
+// Len or Capacity), Close and the goroutine wait for each other forever.
+func ruleC15EventLoopLockFree(c *Ctx) {
+	u := c.U1
+	c.rule("C15.event-loop-lock-free", "processEvents (the eviction event goroutine) and the package functions it calls never acquire cache.mux nor call a method of the cache that does: Close holds mux while it waits for this goroutine to receive", 1)
+	pe := u.Method(pkgCache, "cache", "processEvents")
+	if pe == nil {
+		c.unresolved("cache.processEvents", "method")
+		return
+	}
+	d := newLockDomain(u, pkgCache, "cache", "mux")
+	locks := func(g *ssa.Function) bool {
+		hit := false
+		rp := recvPathOf(g)
+		allInstrs(g, func(i ssa.Instruction) {
+			if k, ok := d.lockOpKind(i, rp); ok && (k == "Lock" || k == "RLock") {
+				hit = true
+			}
+		})
+		return hit
+	}
+	bad := ""
+	seen := map[*ssa.Function]bool{}
+	var walk func(g *ssa.Function, depth int)
+	walk = func(g *ssa.Function, depth int) {
+		if g == nil || g.Blocks == nil || seen[g] || depth > 3 {
+			return
+		}
+		seen[g] = true
+		c.FuncsAnalysed[shortName(g)] = true
+		if locks(g) {
+			bad = trimPkgDirs(shortName(g))
+		}
+		for _, a := range withAnon(g) {
+			allInstrs(a, func(i ssa.Instruction) {
+				if _, isGo := i.(*ssa.Go); isGo {
+					return
+				}
+				if h := staticCallee(i); h != nil && h.Pkg != nil && h.Pkg.Pkg.Path() == pkgCache {
+					if d.has(orig(h)) && locks(orig(h)) && bad == "" {
+						bad = trimPkgDirs(shortName(orig(h))) + " (called at " + u.ipos(i) + ")"
+					}
+					walk(orig(h), depth+1)
+				}
+			})
+		}
+	}
+	walk(pe, 0)
+	c.check(bad == "", "cache.processEvents/lock-free", u.pos(pe.Pos()), "the event goroutine never waits for mux", "the event goroutine acquires cache.mux through "+bad+": Close holds mux for the whole drain and blocks sending to this goroutine, which now blocks on mux — Close never returns, no further callback runs, the cache stays locked")
+}
